@@ -650,11 +650,12 @@ class FieldWrapper(Wrapper):
             options.extend(additional_options)
             dashes.extend(additional_dashes)
 
-        # remove duplicates by creating a set.
-        option_strings = {f"{dash}{option}" for dash, option in zip(dashes, options)}
-        # TODO: possibly sort the option strings, if argparse doesn't do it
-        # already.
-        return list(sorted(option_strings, key=len))
+        # remove duplicates, keeping the order in which the option strings were generated (a `set`
+        # would make the order of equal-length option strings - and with it the usage / help text
+        # and the order in which conflicts are found - depend on the hash seed of the process).
+        option_strings = list(dict.fromkeys(f"{dash}{option}" for dash, option in zip(dashes, options)))
+        # shortest first (the sort is stable).
+        return sorted(option_strings, key=len)
 
     # @property
     # def prefix(self) -> str:
